@@ -356,6 +356,13 @@ class Code:
             return [np.asarray(prim)], [np.asarray(tang)]
         return [np.asarray(x) for x in prim], [np.asarray(x) for x in tang]
 
+    def eigh_vjp(self, A, cw, cv):
+        """reverse mode: cotangent of A for cotangents (cw, cv) of (eigenvalues, eigenvectors)"""
+        jax, jnp = self.jax, self.jnp
+        from ad_afqmc import linalg_utils
+        _, f = jax.vjp(linalg_utils._eigh, jnp.array(np.asarray(A, dtype=float)))
+        return np.asarray(f((jnp.array(np.asarray(cw, dtype=float)), jnp.array(np.asarray(cv, dtype=float))))[0])
+
     def eigh_jvp(self, A, Adot):
         jnp = self.jnp
         (w, v), (dw, dv) = self._eigh_jvp(jnp.array(np.asarray(A, dtype=float)), jnp.array(np.asarray(Adot, dtype=float)))
